@@ -28,6 +28,7 @@ def access_summary(P, fi: FuncInfo):
     The accessor is interpreted with an opaque row; helpers of the package are inlined, so extracting or inlining a helper,
     temporaries, early returns and comprehension-vs-builtin idioms do not change the summary."""
     paths, keys, calls = set(), set(), set()
+    call_consts = set()
     m = fi.module
 
     def resolve_call(name):
@@ -63,6 +64,13 @@ def access_summary(P, fi: FuncInfo):
                 r = resolve_call(v.args[0])
                 if r is not None:
                     calls.add(r)
+                    # options the accessor fixes in the call (flags, defaults): part of what is computed
+                    for i_, a_ in enumerate(v.args[1]):
+                        if a_ is None or isinstance(a_, (bool, int, str)):
+                            call_consts.add(f'{r}(#{i_}={a_!r})')
+                    for k_, a_ in v.args[2]:
+                        if a_ is None or isinstance(a_, (bool, int, str)):
+                            call_consts.add(f'{r}({k_}={a_!r})')
                 if isinstance(v.args[0], str) and '.' in v.args[0]:
                     # the receiver of a method call is not in the term: it was printed into the name
                     pass
@@ -122,7 +130,7 @@ def access_summary(P, fi: FuncInfo):
     for r in recv_terms:
         visit(r)
     maximal = sorted(p for p in paths if not any(q != p and q.startswith(p + '.') for q in paths))
-    return {'paths': maximal, 'calls': sorted(calls), 'keys': sorted(keys), 'consts': sorted(consts)}
+    return {'paths': maximal, 'calls': sorted(calls), 'keys': sorted(keys), 'consts': sorted(consts), 'call_consts': sorted(call_consts)}
 
 
 # ----------------------------------------------------------------------
@@ -419,6 +427,19 @@ def rule_attach(P) -> RuleResult:
             res.fail(fi.fq, 'attach:bind', f'attach ({case}) must bind, for each class in TABLES, context.tables[table.name] = table(entries, '
                      f'options) with the entries and options of this ledger, replacing what was bound before; it {what}: after a second '
                      f'attach (.reload, Connection.attach) the tables still present the first ledger, or another one', loc(fi))
+        # the ledger handed in belongs to the caller (and to every other connection made from the same list)
+        MUT = ('sort', 'reverse', 'append', 'extend', 'insert', 'pop', 'remove', 'clear', 'update', 'setdefault', 'popitem', '__setitem__', '__delitem__')
+        for e in p.events:
+            hit = None
+            if e[0] == 'call' and isinstance(e[1], str) and e[1].rsplit('.', 1)[-1] in MUT and e[1].rsplit('.', 1)[0] in ('ENTRIES', 'OPTIONS', 'ERRORS'):
+                hit = e[1] + '()'
+            elif e[0] in ('store', 'delete') and isinstance(e[1], T) and e[1].op in ('item', 'attr', 'slice') and e[1].args[0] in tuple(args.values())[2:]:
+                hit = show(e[1])
+            if hit:
+                ok = False
+                res.fail(fi.fq, 'attach:input', f'attach ({case}) changes the ledger it was given (`{hit[:60]}`): the list belongs to the caller, and '
+                         f'every connection already made from it - possibly executing a statement in another thread right now - iterates that very list', loc(fi))
+                break
         calls = {str(e[1]): e[2] for e in p.events if e[0] == 'call'}
         if tuple(calls.get('CONTEXT.options.update', ())) != (opt,):
             ok = False
@@ -535,4 +556,94 @@ def rule_typedcols(P) -> RuleResult:
                 break
         if n == 0:
             raise AnalysisError(f'{fi.fq}: no path on terms')
+    return res
+
+
+# ----------------------------------------------------------------------
+# R-TABLESOURCE (C11): the tables that are not plain directive lists are built from the ledger with beancount's own getters
+
+# what each constructor keeps on the table, as a function of (entries, options); row generators read exactly these attributes
+TABLE_SOURCES = {
+    'AccountsTable': {'accounts': 'get_account_open_close(entries)', 'types': 'parser.options.get_account_types(options)'},
+    'CommoditiesTable': {'commodities': 'get_commodity_directives(entries)'},
+    'PricesTable': {'price_map': 'prices.build_price_map(entries)', 'entries': 'entries', 'options': 'options'},
+    'Table': {'entries': 'entries', 'options': 'options'},
+}
+TABLE_ROWS = {
+    # the rows each of these tables presents, as a term over the kept attributes
+    'AccountsTable': 'accounts',        # one row (name, open, close) per item of the account map
+    'CommoditiesTable': 'commodities',  # the values of the commodity map
+}
+
+
+def rule_tablesource(P) -> RuleResult:
+    """sources.beancount on terms: AccountsTable keeps getters.get_account_open_close(entries) - beancount's own account map: every
+    account that is opened *or* closed, with its *first* Open - and the account types of the ledger's options; CommoditiesTable keeps
+    getters.get_commodity_directives(entries); PricesTable keeps prices.build_price_map(entries) next to the entries; the typed tables
+    keep the entries and options they are given.  The row generators of the two map-backed tables walk that very map."""
+    from ..symex import canon
+    from .sx_library import _resolve_names
+    res = RuleResult('R-TABLESOURCE')
+    res.exhaustive = True
+    m = P.module('beanquery.sources.beancount')
+    SELF, ENT, OPT = Sym('TABLE'), Sym('ENTRIES'), Sym('OPTIONS')
+    for cname, want in TABLE_SOURCES.items():
+        ci = m.classes.get(cname)
+        init = ci.methods.get('__init__') if ci else None
+        if init is None:
+            raise AnalysisError(f'anchor vanished: sources.beancount.{cname}.__init__')
+        # the constructor (with the base constructors it calls) on terms
+        heap = {}
+        n = 0
+        for p in Engine(P, max_depth=3).paths(init, {'self': SELF, init.params[1]: ENT, init.params[2]: OPT}):
+            n += 1
+            if p.outcome == 'raise' or p.decisions:
+                res.fail(init.fq, 'tablesource:shape', f'{cname}(entries, options) must build the table unconditionally; it '
+                         f'{"raises " + str(p.value[0]) if p.outcome == "raise" else "branches on " + show(p.decisions[0][0])[:50]}', loc(init))
+                continue
+            heap = p.heap
+        if n == 0:
+            raise AnalysisError(f'{init.fq}: no path on terms')
+        good = True
+        for attr, src in want.items():
+            dnode = ast.parse(f'def _d(entries, options):\n    return {src}').body[0]
+            dp = Engine(P).paths(dnode, {'entries': ENT, 'options': OPT, '__fi__': init})
+            w = repr(_resolve_names(canon(dp[0].value), init.module))
+            g = heap.get(T('attr', (SELF, attr)))
+            if g is None or repr(_resolve_names(canon(g), init.module)) != w:
+                good = False
+                res.fail(init.fq, f'tablesource:{attr}', f'{cname} keeps `{attr} = {src}` - beancount\'s own reading of the ledger; found '
+                         f'`{show(g)[:120] if g is not None else "nothing"}`', loc(init))
+        if good:
+            res.ok({'table': cname, 'keeps': want})
+    for cname, attr in TABLE_ROWS.items():
+        ci = m.classes[cname]
+        it = ci.methods.get('__iter__')
+        if it is None:
+            raise AnalysisError(f'anchor vanished: sources.beancount.{cname}.__iter__')
+        MAP = Sym('THE_MAP')
+
+        def on_attr(base, a, ex, _attr=attr):
+            if base == SELF and a == _attr:
+                return MAP
+            return NotImplemented
+        srcs = set()
+        for p in Engine(P, on_attr=on_attr, inline_generators=True).paths(it, {'self': SELF}):
+            from ..symex import walk_terms
+            vals = [p.value] + [e[1] for e in p.events if e[0] in ('yield', 'loop-begin')]
+            for v in vals:
+                for x in walk_terms(v):
+                    if isinstance(x, T) and x.op == 'attr' and x.args[0] == SELF:
+                        srcs.add(x.args[1])
+                    if x == MAP:
+                        srcs.add(attr)
+                if 'THE_MAP' in show(v) or (isinstance(v, SList) and getattr(v, 'source', None) is not None and 'THE_MAP' in show(v.source)):
+                    srcs.add(attr)          # a method call on the map: the receiver is part of the printed callee
+            for e in p.events:
+                if e[0] == 'call' and 'THE_MAP' in str(e[1]):
+                    srcs.add(attr)
+        if srcs != {attr}:
+            res.fail(it.fq, 'tablesource:rows', f'the rows of {cname} are the items of `self.{attr}`; the row generator reads {sorted(srcs) or "nothing"}', loc(it))
+        else:
+            res.ok({'table': cname, 'rows_from': f'self.{attr}'})
     return res
